@@ -290,4 +290,14 @@ func (*withParagraphTransformers).SetParserOption
 func (*withASTTransformers).SetParserOption
   ensures [owned] fresh(c.ASTTransformers) || arrof(c.ASTTransformers) == old(arrof(c.ASTTransformers))
   modifies c.ASTTransformers, contents(c.ASTTransformers)
+
+// addInlineParser: as for block parsers - existing entries of every trigger list stay in place
+macro ipSep(p) = forall b int, c int {p.inlineParsers[b], p.inlineParsers[c]} :: (0 <= b && b < 256 && 0 <= c && c < 256 && b != c && arrof(p.inlineParsers[b]) != 0) ==> arrof(p.inlineParsers[b]) != arrof(p.inlineParsers[c])
+macro ipKept(p) = forall b int {p.inlineParsers[b]} :: (0 <= b && b < 256) ==> (old(len(p.inlineParsers[b])) <= len(p.inlineParsers[b]) && (forall k int {p.inlineParsers[b][k]} :: (0 <= k && k < old(len(p.inlineParsers[b]))) ==> p.inlineParsers[b][k] == old(p.inlineParsers[b][k])))
+func (*parser).addInlineParser
+  bodyspec          // verified against the body only; call sites keep the claim-free inferred summary (keeps Parse$1's queries small)
+  requires [sep] ipSep(p)
+  ensures [sep] ipSep(p)
+  ensures [kept] ipKept(p)
+  loop 1 inv ipSep(p) && ipKept(p) && ip == v.Value
 @*/
